@@ -6,6 +6,7 @@ import (
 	"fmt"
 	"strings"
 	"testing"
+	"unicode/utf8"
 
 	"github.com/hneemann/parser2"
 	"github.com/hneemann/parser2/value"
@@ -213,7 +214,8 @@ func checkTable(c TableCase) string {
 	return ""
 }
 
-var opChars = []string{"+", "-", "*", "/", "%", "^", "<", ">", "=", "!", "&", "|", "~", "?", "@", "#", "$"}
+// (also symbols outside ASCII: an operator spelling is a sequence of characters, not of bytes)
+var opChars = []string{"+", "-", "*", "/", "%", "^", "<", ">", "=", "!", "&", "|", "~", "?", "@", "#", "$", "≤", "∧", "¬", "≈", "⊕"}
 
 func genSpelling(t *rapid.T, used map[string]bool, existing []string) string {
 	for try := 0; try < 50; try++ {
@@ -228,7 +230,7 @@ func genSpelling(t *rapid.T, used map[string]bool, existing []string) string {
 				s += opChars[rapid.IntRange(0, len(opChars)-1).Draw(t, "ch")]
 			}
 		}
-		if len(s) > 3 || used[s] || s == "->" || s == "=" && false {
+		if utf8.RuneCountInString(s) > 3 || used[s] || s == "->" || s == "=" && false {
 			continue
 		}
 		// '->' is the closure arrow: an operator that ends with '-' in front of one that
